@@ -56,6 +56,13 @@ class GenomeSpec:
                 "mode": self.mode, "sort_names": self.sort_names, "extra_ignored": self.extra_ignored,
                 "sizes_as": self.sizes_as, "order": self.order, "ignored": self.ignored}
 
+    @classmethod
+    def from_description(cls, d):
+        """inverse of describe() (literal replay of a stored scenario)"""
+        names = [str(n) for n in d["names"]]
+        return cls(names, dict(zip(names, [int(x) for x in d["sizes"]])), d["family"], d["mode"], bool(d["sort_names"]),
+                   [str(x) for x in d["extra_ignored"]], d["sizes_as"])
+
     def size_of(self, name):
         return self.sizes.get(name, 12)
 
@@ -167,6 +174,11 @@ class DataSpec:
     def describe(self):
         return {"kind": self.kind, "groups": [[n, [list(e[1:]) for e in es]] for n, es in self.groups],
                 "cuts": self.cuts, "chunks": [len(c) for c in self.chunks()]}
+
+    @classmethod
+    def from_description(cls, d):
+        groups = [(str(n), [tuple([str(n)] + [int(x) for x in e]) for e in es]) for n, es in d["groups"]]
+        return cls(d["kind"], groups, int(d["cuts"]))
 
     def bed_bytes(self):
         return "".join("\t".join(str(x) for x in e) + "\n" for e in self.entries).encode()
